@@ -292,6 +292,34 @@ fn gen_stack15(rng: &mut Rng) -> (Prog, Vec<String>) {
     (p, stack_inputs(&lits))
 }
 
+/// long literals and long stack values (20-40 bytes, one to three multi-byte characters at random offsets, so that every
+/// byte offset is inside a character for some of them): whatever is recorded about a token must cope with any length
+fn long_lit(rng: &mut Rng) -> String {
+    let n = rng.range(18, 40) as usize;
+    let mut s = String::new();
+    while s.len() < n {
+        s.push_str(match rng.weighted(&[10, 4, 2, 1, 1]) { 0 => "a", 1 => "b", 2 => "é", 3 => "✂", _ => "𝄞" });
+    }
+    s
+}
+fn gen_long15(rng: &mut Rng) -> (Prog, Vec<String>) {
+    use Prog::*;
+    let l1 = long_lit(rng);
+    let l2 = long_lit(rng);
+    let lit = |x: &str, rng: &mut Rng| if rng.chance(1, 4) { Ins(x.to_string()) } else { Str(x.to_string()) };
+    let p = match rng.below(5) {
+        0 => Rule(0, Box::new(lit(&l1, rng))),
+        1 => Else(Box::new(Rule(1, Box::new(lit(&l1, rng)))), Box::new(Rule(2, Box::new(lit(&l2, rng))))),
+        2 => Then(Box::new(PushLit(l1.clone())), Box::new(Rule(1, Box::new(if rng.chance(1, 2) { MPeek } else { MPop })))),
+        3 => { let alt = Else(Box::new(Rule(2, Box::new(MPeek))), Box::new(Rule(3, Box::new(Str("b".into()))))); Then(Box::new(PushLit(l1.clone())), Box::new(Then(Box::new(Str("\n".into())), Box::new(alt)))) }
+        _ => Then(Box::new(Opt(Box::new(lit(&l1, rng)))), Box::new(Rule(0, Box::new(Then(Box::new(lit(&l2, rng)), Box::new(Eoi)))))),
+    };
+    let cut = |x: &str, rng: &mut Rng| { let mut k = rng.below(x.len() as u64 + 1) as usize; while !x.is_char_boundary(k) { k -= 1; } x[..k].to_string() };
+    let ins = vec![l1.clone(), l2.clone(), format!("{}{}", l1, l1), format!("{}\n{}", l1, l1), format!("{}{}", l1, l2), format!("{}\n{}", l1, cut(&l1, rng)),
+                   cut(&l1, rng), format!("{}x", cut(&l1, rng)), format!("{}{}", l1, cut(&l2, rng)), String::new()];
+    (p, ins)
+}
+
 // ------------------------------------------------------------------------------------------
 // generated grammars through pest_meta + pest_vm
 // ------------------------------------------------------------------------------------------
@@ -461,7 +489,8 @@ fn main() {
                 let env: Vec<Prog> = (0..nfun).map(|k| gen15(&mut rng, 2, nfun, Some(k + 1))).collect();
                 let d = rng.range(1, maxdepth as u64) as u32;
                 let mut stack_in: Option<Vec<String>> = None;
-                let mut prog = match rng.below(7) {
+                let mut prog = match rng.below(8) {
+                    7 => { let (p, ins) = gen_long15(&mut rng); stack_in = Some(ins); p }
                     0 => gen_wide(&mut rng), 1 => gen(&mut rng, d, nfun, Some(0)), 2 => gen_nested_wide(&mut rng),
                     3 => { let (p, ins) = gen_stack15(&mut rng); stack_in = Some(ins); p }
                     _ => gen15(&mut rng, d, nfun, Some(0)),
